@@ -239,11 +239,7 @@ Theorem C15_requested_stale_snapshot_keeps_log_step :
     r_log r' = r_log r1 /\
     r_msgs r' = r_msgs r1 ++ [mm] /\
     m_type mm = MsgAppendResponse /\ m_index mm = 4 /\ m_reject mm = false.
-Proof.
-  destruct w_requested_ok as (r1 & A & B & _).
-  destruct requested_stale_snapshot_keeps_log_step as (r' & mm & C0 & D).
-  exists r1, r', mm. rewrite <- B. split; [rewrite B; exact A|]. split; [exact C0|exact D].
-Qed.
+Proof. exact requested_stale_snapshot_keeps_log_step_full. Qed.
 Print Assumptions C15_requested_stale_snapshot_keeps_log_step.
 
 (* positive: in the same state a snapshot at the requested index (5, matching!) or above
@@ -404,15 +400,6 @@ Example C15_example_install :
 Proof. eexists. split; [vm_compute; reflexivity|]. repeat split; vm_compute; reflexivity. Qed.
 
 (* a leader whose peer needs compacted entries sends a snapshot *)
-Definition ex_leader : raft :=
-  let st := mkMem (mkHS 1 1 5) w_cs [w_ent 4; w_ent 5] 3 1 false false None in
-  mkRaft 1 1 1 [] (mkLog st (u_new 6) 5 5 5 0) 256 1000 0 Leader true 1 None 0 (ro_new 0) 0 0
-         false false false false false 1 10 15 10 20 0%Z u64_max 0 5 u64_max
-         (mkTr [(1, mkPr 5 6 Replicate false 0 0 true (Inflights.new 256) 0 5);
-                (2, mkPr 0 2 Probe false 0 0 true (Inflights.new 256) 0 0);
-                (3, mkPr 5 6 Replicate false 0 0 true (Inflights.new 256) 0 5)]
-               (mkConf [1; 2; 3] [] [] [] false) [] 256 false) [] [] None.
-
 Example C15_example_send_snapshot :
   exists r' pr' mm,
     maybe_send_append ex_leader 2 (mkPr 0 2 Probe false 0 0 true (Inflights.new 256) 0 0) true
